@@ -148,6 +148,22 @@ def r2(c):
     c.check("C10.R2", ok, repo.loc(pm, z[0] if z else mr), "match_row_to_acl/names-flags-aligned", "generator names and cant_delete flags are not taken pairwise from the same matching rule", key_text="zip")
 
 
+def _leaf_values(pv, e, depth=0):
+    """the expressions a value may be, following local assignments and both arms of conditional expressions"""
+    if depth > 8:
+        return {norm(e)}
+    if isinstance(e, ast.IfExp):
+        return _leaf_values(pv, e.body, depth + 1) | _leaf_values(pv, e.orelse, depth + 1)
+    if isinstance(e, ast.Name):
+        ds = pv.rd.defs(e)
+        if ds and all(d.kind == "assign" and d.value is not None for d in ds):
+            out = set()
+            for d in ds:
+                out |= _leaf_values(pv, d.value, depth + 1)
+            return out
+    return {norm(e)}
+
+
 def r3(c):
     repo = c.repo
     c.rule("C10.R3", "union fold: RunGeneratorResult.config_tree folds every partial result with merge_dicts (no filter); run_partial_generators adds every non-empty result; "
@@ -156,12 +172,22 @@ def r3(c):
     fn = repo.func(RESULT, "RunGeneratorResult.config_tree")
     c.count("functions", 3)
     loops = [st for st in fn.body if isinstance(st, ast.For)]
-    ok = len(loops) == 1 and norm(loops[0].iter) == "self.partial_results.values()" and not [n for n in walk_no_nested(loops[0]) if isinstance(n, (ast.Continue, ast.Break, ast.If))]
+    cgm = GuardMap(fn)
     md = [x for x in calls_in(fn) if call_name(x) == "merge_dicts"]
-    ok = ok and len(md) == 1 and norm(md[0].args[0]) == "tree"
+    ok = len(loops) == 1 and norm(loops[0].iter) == "self.partial_results.values()" and not [n for n in walk_no_nested(loops[0]) if isinstance(n, (ast.Continue, ast.Break, ast.Return))]
     pv = Provenance(fn)
     ret = [n for n in walk_no_nested(fn) if isinstance(n, ast.Return)][-1]
-    ok = ok and any(x is md[0] for x in pv.origin_calls(ret.value, through_calls=False)) if md else False
+    if ok and len(md) == 1 and isinstance(ret.value, ast.Name):
+        acc = ret.value.id
+        st = cgm.stmt(md[0])
+        # tree = merge_dicts(tree, <this result's config>) on every iteration
+        ok = cgm.formula(md[0]) == G.T and cgm.in_loop(md[0]) == [loops[0]] and isinstance(st, ast.Assign) and norm(st.targets[0]) == acc and st.value is md[0] and norm(md[0].args[0]) == acc
+        if ok and isinstance(loops[0].target, ast.Name):
+            ev = loops[0].target.id
+            srcs = _leaf_values(pv, md[0].args[1]) if len(md[0].args) == 2 else set()
+            ok = bool(srcs) and srcs <= {f"{ev}.config", f"{ev}.safe_config"}
+    else:
+        ok = False
     c.check("C10.R3", ok, repo.loc(rm, fn), "config_tree/fold", "the desired config is not the merge_dicts fold over every partial result", key_text="fold")
     gm_ = repo.module(GENS)
     rp = repo.func(GENS, "run_partial_generators")
@@ -214,12 +240,26 @@ def r4(c, rid="C10.R4"):
     gvar = o.target.id if isinstance(o.target, ast.Name) else None
     tag = [n for n in walk_no_nested(fn) if isinstance(n, (ast.JoinedStr, ast.BinOp, ast.Constant)) and "%generator_names=" in norm(n)]
     ok = bool(tag)
+    nonblank = None
     if ok:
         t = tag[0]
-        uses_name = any(isinstance(x, ast.Attribute) and x.attr == "name" and isinstance(x.value, ast.Name) and x.value.id == gvar for x in ast.walk(gm.stmt(t)))
-        f = gm.formula(t, G.GuardEnv())
-        loops = gm.in_loop(t)
-        ok = uses_name and len(loops) >= 2 and loops[0] is o and all(("line" in a) for a in G.atoms(f))
+        holder = gm.stmt(t)
+        uses_name = any(isinstance(x, ast.Attribute) and x.attr == "name" and isinstance(x.value, ast.Name) and x.value.id == gvar for x in ast.walk(holder))
+        sites = [holder]
+        if isinstance(holder, ast.Assign) and isinstance(holder.targets[0], ast.Name) and not isinstance(holder.targets[0], ast.Subscript) and len(gm.in_loop(holder)) < 2:
+            # the tag is prepared once per result and attached to each line further down
+            tv = holder.targets[0].id
+            sites = [gm.stmt(x) for x in walk_no_nested(o) if isinstance(x, ast.Name) and x.id == tv and isinstance(x.ctx, ast.Load)]
+            ok = gm.in_loop(holder) == [o] and gm.formula(holder) == G.T
+        inner = [l for s_ in sites for l in gm.in_loop(s_)[1:2]]
+        lv = inner[0].target.id if inner and isinstance(inner[0].target, ast.Name) else None
+        nonblank = G.And(G.Atom("nonempty"), G.Not(G.Atom("blank")))
+        env = G.GuardEnv(rename=lambda a_: {lv: "nonempty", f"{lv}.isspace()": "blank", f"{lv}.strip()": "nonblank2", f"len({lv}) > 0": "nonempty"}.get(a_, a_))
+        ok = ok and uses_name and bool(sites) and lv is not None
+        for s_ in sites:
+            loops = gm.in_loop(s_)
+            f = gm.formula(s_, env)
+            ok = ok and len(loops) >= 2 and loops[0] is o and (G.equivalent(f, nonblank) or G.equivalent(f, G.Atom("nonblank2")))
     c.check(rid, ok, repo.loc(rm, tag[0] if tag else fn), "_combine_acl_text/tag-every-line", "not every non-blank ACL line is tagged with the name of the result it came from", key_text="tag")
     # dedent per generator: a dedent call inside the outer loop whose argument derives from acl_getter(gr)
     dd = [x for x in calls_in(fn) if call_name(x).endswith("dedent")]
@@ -227,7 +267,12 @@ def r4(c, rid="C10.R4"):
     c.check(rid, bool(inside), repo.loc(rm, dd[0] if dd else fn), "_combine_acl_text/dedent-per-generator",
             "generators' ACL texts are not dedented one by one before being joined: with different base indentation one generator's top-level rules become children of "
             "another's last block, so the combined ACL covers lines no generator owns", key_text="dedent")
-    skips = [n for n in walk_no_nested(o) if isinstance(n, (ast.Break, ast.Continue, ast.Return))]
+    skips = [n for n in walk_no_nested(o) if isinstance(n, (ast.Break, ast.Return))]
+    if nonblank is not None:
+        # `continue` is fine only for a blank line
+        skips += [n for n in walk_no_nested(o) if isinstance(n, ast.Continue) and not (len(gm.in_loop(n)) >= 2 and not G.satisfiable(G.And(gm.formula(n, env), nonblank)))]
+    else:
+        skips += [n for n in walk_no_nested(o) if isinstance(n, ast.Continue)]
     c.check(rid, not skips, repo.loc(rm, skips[0] if skips else o), "_combine_acl_text/no-skip", "some results or lines are skipped", key_text="skip")
 
 
